@@ -40,6 +40,8 @@ pub struct Profile {
     pub allow_self_move: bool,
     pub read_only: bool,
     pub max_write: u32,
+    /// restrict the name alphabet to ASCII (C19: builds with and without Unicode folding must agree)
+    pub ascii_only: bool,
 }
 
 impl Profile {
@@ -73,6 +75,7 @@ impl Profile {
             allow_self_move: true,
             read_only: false,
             max_write: 3000,
+            ascii_only: false,
         }
     }
     pub fn fileio() -> Self {
@@ -201,7 +204,11 @@ impl Gen {
         for _ in 0..n {
             let r = rng.below(100);
             let s = if r < 80 {
-                (*rng.pick(VALID_NAMES)).to_string()
+                let mut cand = (*rng.pick(VALID_NAMES)).to_string();
+                if prof.ascii_only && !cand.is_ascii() {
+                    cand = format!("ascii {}", cand.len());
+                }
+                cand
             } else if r < 88 {
                 long_name(rng.range(60, 140) as usize, 'L')
             } else if r < 94 {
@@ -283,7 +290,14 @@ impl Gen {
             match self.rng.below(10) {
                 0 => String::new(),
                 1 => long_name(256 + self.rng.usize_below(40), 'Z'),
-                _ => (*self.rng.pick(INVALID_NAMES)).to_string(),
+                _ => {
+                    let n = (*self.rng.pick(INVALID_NAMES)).to_string();
+                    if self.prof.ascii_only && !n.is_ascii() {
+                        "a:b".to_string()
+                    } else {
+                        n
+                    }
+                }
             }
         } else {
             let n = self.names[self.rng.usize_below(self.names.len())].clone();
